@@ -5,7 +5,8 @@ import os, shutil, subprocess, sys, tempfile
 sys.path.insert(0, "/verif")
 from sa import props
 from sa.core import Repo, AnalysisError
-from sa.runner import run_rules
+from sa.runner import run_rules, load_known
+KNOWN_OPEN = load_known()
 
 patch = os.path.abspath(sys.argv[1])
 only = None
@@ -24,7 +25,9 @@ try:
             continue
         try:
             obs = run_rules(Repo(d), spec["rules"])
-            bad = [o for o in obs if not o.ok]
+            bad = [o for o in obs if not o.ok and not any(
+                k.get("status") == "open" and k.get("rule") == o.rule and k.get("function", "").split("#")[0] == o.func.split("#")[0] and
+                " ".join(k.get("construct", "").split()) == " ".join(o.construct.split()) for k in KNOWN_OPEN)]
             if bad:
                 fired[pid] = bad
         except AnalysisError as e:
